@@ -98,7 +98,9 @@ def impl_main(payload):
             x = np.array(c["rows"], dtype=float).reshape(len(c["rows"]), c["D"])
             for i, b in enumerate(c["mask"]):
                 if b:
-                    x[i, :] = np.nan
+                    # a separator is any row CONTAINING a NaN: in every column, in some columns, or in one column only
+                    cols = [j for j in range(c["D"]) if (i * 7 + j * 3 + len(c["rows"])) % 3 == 0] or [(i + len(c["rows"])) % c["D"]]
+                    x[i, cols if (i + len(c["rows"])) % 2 else slice(None)] = np.nan
             if not any(c["mask"]) and c.get("int_dtype"):
                 # a single trajectory given as an integer array (np.arange-style data): same mathematics
                 x = np.array(c["rows"], dtype={1: np.int64, 2: np.int32}[c["int_dtype"]]).reshape(len(c["rows"]), c["D"])
@@ -109,6 +111,11 @@ def impl_main(payload):
                     out.append(-7777)
                     for v in da[:, j]:
                         r = v * 252
+                        if not math.isfinite(r):
+                            out.append(-999998)
+                            if not viol:
+                                viol.append("the derivative at a retained row is %r: samples of a separator row or of another trajectory leaked in" % float(v))
+                            continue
                         out.append(int(round(r)) if abs(r - round(r)) < 1e-6 else -999999)
                 # ---- oracle: retained rows, x values
                 exp_rows, start = [], 0
